@@ -14,6 +14,11 @@ pub uninterp spec fn sk_of_bytes(b: Seq<u8>) -> SecretKey;
 pub uninterp spec fn sk_bytes(sk: SecretKey) -> [u8; 32];
 
 impl VxSecp {
+    // plain and low-R-grinding ECDSA: a signature by `sk` over exactly `msg` (the grinding only changes the nonce)
+    #[verifier::external_body]
+    pub fn sign_ecdsa(&self, msg: &Message, sk: &SecretKey) -> (r: Signature) ensures r == ecdsa_sign(*msg, *sk) { unimplemented!() }
+    #[verifier::external_body]
+    pub fn sign_ecdsa_low_r(&self, msg: &Message, sk: &SecretKey) -> (r: Signature) ensures r == ecdsa_sign(*msg, *sk) { unimplemented!() }
     #[verifier::external_body]
     pub fn verify_ecdsa(&self, msg: &Message, sig: &Signature, pk: &PublicKey) -> (r: Result<(), SecpError>)
         ensures r.is_ok() == ecdsa_valid(*msg, *sig, *pk)
